@@ -17,8 +17,8 @@ ID = "C16"
 TECHNIQUE = "runtime monitoring: factory calls compared with closed forms; exception-type monitor for invalid parameters"
 LEVEL = "exploration"
 RULE = ("seeded stream of parameter tuples for Primitive.square/triangle/regular_polygon/polygon/circle: sizes "
-        "1e-3..1e4 as int/Fraction/float/numpy scalars, centres as tuple/list/Point2D of every numeric kind, nsides 3..40, "
-        "ndivangle 4..64, plus invalid tuples (non-positive, nan, str, None, complex, nsides<3, bool/float nsides, "
+        "1e-3..1e4 (one in eight 1e4..3e9) as int/Fraction/float/numpy scalars, centres as tuple/list/Point2D of every numeric kind, "
+        "nsides 3..400, ndivangle 4..300, plus invalid tuples (non-positive, nan, str, None, complex, nsides<3, bool/float nsides, "
         "ndivangle<4 or non-int, malformed centre); each case = 12 factory calls; non-trivial = a call whose "
         "result (or exception) was judged against the closed form; distinct = distinct parameter tuples")
 ASSUMPTIONS = [
@@ -46,6 +46,8 @@ def rand_size(rng):
     import numpy as np
 
     mag = 10 ** rng.uniform(-3, 4)
+    if rng.random() < 0.12:
+        mag = 10 ** rng.uniform(4, 9.5)  # large shapes: the factories have no absolute scale
     kind = rng.choice(["int", "frac", "float", "float", "np64", "np32int"])
     if kind == "int":
         return max(1, int(round(mag))), "int"
@@ -187,7 +189,7 @@ def valid_call(case, rng):
             if exc is not None or got is not True:
                 case.violate("triangle%r: the right-angle vertex (its 'center') is not contained" % (params,))
     elif which == "regular":
-        n = rng.choice([3, 4, 4, 5, 6, 7, 8, 12, 17, 40])
+        n = rng.choice([3, 4, 4, 5, 6, 7, 8, 12, 17, 40]) if rng.random() < 0.5 else rng.randint(3, 400)
         params = (n, size, center)
         shape, exc = call(lambda: P.regular_polygon(nsides=n, radius=size, center=center))
         if exc is not None:
@@ -243,7 +245,7 @@ def valid_call(case, rng):
         if (area > 0) == cw:
             case.violate("polygon%r orientation does not follow the list" % (params,))
     else:
-        n = rng.choice([4, 4, 5, 6, 8, 12, 16, 16, 24, 32, 64])
+        n = rng.choice([4, 4, 5, 6, 8, 12, 16, 16, 24, 32, 64]) if rng.random() < 0.7 else rng.randint(4, 300)
         params = (size, center, n)
         shape, exc = call(lambda: P.circle(radius=size, center=center, ndivangle=n))
         if exc is not None:
